@@ -43,7 +43,7 @@ class C20(Check):
     technique = ("Coq proof over an executable model of the range-for loop over enumerate()/reverse() (iterator = position, explicit fuel, "
                  "container threaded through the loop; invariant proofs by induction) + extraction-based differential test against the C++ "
                  "under AddressSanitizer for every container kind and value category")
-    level_text = ("Fourteen theorems in Coq for ALL element types, ranges of ANY length (also empty) and ANY update function: the range-for over "
+    level_text = ("Fifteen theorems in Coq for ALL element types, ranges of ANY length (also empty) and ANY update function: the range-for over "
                   "enumerate(c) ends within length+1 tests of `b != e` (so after exactly length(c) iterations), never dereferences a non-element, "
                   "visits exactly (0,c0),(1,c1),... and leaves the container as [f 0 c0; f 1 c1; ...] when the body assigns f index value through "
                   "the proxy (map g c for an index-blind body, c for a read-only one); the same for owned (temporary / moved / initializer-list) "
@@ -52,7 +52,8 @@ class C20(Check):
                   "adaptor iterated twice, loops nested over one container, an adaptor created before the elements were changed in place, and repeated "
                   "begin() != end() tests give what a fresh adaptor gives; two ranges alive at once are independent: whatever the body of a loop over an "
                   "adaptor of a does with another container b (e.g. a whole loop over an adaptor of b), the outer loop visits exactly a's elements and "
-                  "a ends as the pointwise image, and b is unchanged unless that code writes it. The model (iterator = position, index incremented with it, end detected by position only, "
+                  "a ends as the pointwise image, and b is unchanged unless that code writes it; an owning adaptor is a value (a copied or moved adaptor shows "
+                  "its own elements whatever becomes of the source). The model (iterator = position, index incremented with it, end detected by position only, "
                   "reverse iterator with base b denoting element b-1) is tied to /repo by running the extracted model and the real adaptors (ASan/"
                   "UBSan build of the working tree) on every container kind x value category x length 0..5 (0..6 thorough) x several element "
                   "lists and comparing visits, per-visit address identity with the container's own elements, and contents after writing through "
@@ -73,7 +74,10 @@ class C20(Check):
             "containers of one kind, element type and length alive at once (built-in arrays of equal extent, std::array, vector, list, fixed_vector; "
             "lvalue and owning adaptors): every nesting of {reverse, enumerate} in {reverse, enumerate} over different containers with and without "
             "a write through the outer element, three-level reverse nesting, two stored adaptors created one after the other and iterated in either "
-            "order with and without write-through, always followed by reading ALL containers; a case is non-trivial when the range has at least one element; distinct = distinct case line")
+            "order with and without write-through, always followed by reading ALL containers; and RELOCATION scenarios for owning adaptors (enumerate/reverse of a temporary vector, list, "
+            "std::array, fixed_vector and of a braced list, kept in a variable): copied, moved, copy-/move-assigned, returned by value through a "
+            "non-elided path, pushed into a reallocating std::vector, moved between std::optionals, with the source then destroyed or reassigned, "
+            "after which the copy / target (and the source when alive) is iterated; a case is non-trivial when the range has at least one element; distinct = distinct case line")
     modelled_note = ("modelled, not verified: overload resolution, lifetime of temporaries, the underlying containers' iterators and "
                      "std::reverse_iterator (a position / a base position in the model)")
 
@@ -116,6 +120,15 @@ class C20(Check):
                         for _ in range(1 if tier == "quick" else 6):
                             ls = [rng.sample(range(-50, 1000), n) for _ in range(3 if sc == "n3" else 2)]
                             yield "mc %s %s %s %s" % (sc, kind, mode, " ".join(wl(l) for l in ls)), "multi-" + ("n3" if sc == "n3" else sc[0])
+        # OWNING adaptors copied / moved / assigned / returned / stored in a vector or an optional, the source destroyed or reassigned
+        for sc in ("cp", "cpd", "mv", "mvd", "asg", "masg", "ret", "vec", "opt"):
+            for ad in ("en", "rv"):
+                for kind in ("vec", "list", "fv", "arr", "il"):
+                    top = 4 if kind in ("arr", "il") else maxn
+                    for n in range(1 if kind == "il" else 0, top + 1):
+                        for _ in range(1 if tier == "quick" else 5):
+                            l1, l2 = rng.sample(range(-50, 1000), n), rng.sample(range(-50, 1000), n)
+                            yield "ow %s %s %s %s %s" % (sc, ad, kind, wl(l1), wl(l2)), "owned-" + sc
         # longer ranges for the kinds whose length is not a template parameter
         for _ in range(60 if tier == "quick" else 1500):
             ad = rng.choice(("en", "rv"))
@@ -131,18 +144,20 @@ class C20(Check):
         w = case.split()
         if w[0] == "mc":
             return w[-1] != "." and len(set(w[4:])) == len(w[4:])    # non-empty, pairwise different contents
+        if w[0] == "ow":
+            return w[-1] != "." and w[-1] != w[-2]
         return w[-1] != "."
 
     def signature(self, case, mobs, iobs):
         w = case.split()
         n = 0 if w[-1] == "." else w[-1].count(",") + 1
-        if w[0] == "mc":
+        if w[0] in ("mc", "ow"):
             return tuple(w[:4]) + (min(n, 7), iobs.split(" ")[0])
         return tuple(w[:-1]) + (min(n, 7), iobs.split(" ")[0])
 
     def shrink(self, case):
         w = case.split()
-        if w and w[0] == "mc":
+        if w and w[0] in ("mc", "ow"):
             ls = [x.split(",") if x != "." else [] for x in w[4:]]
             for i in range(len(ls[0])):      # drop position i in every container (they must keep one length)
                 yield " ".join(w[:4] + [",".join(l[:i] + l[i + 1:]) or "." for l in ls])
